@@ -81,8 +81,15 @@ def jobs(prop, tier, only_fn=None):
                 bigs = [40] if tier == "quick" else [36, 40, 48]
                 if prop in ("C01", "C03", "C04", "C06", "C08"):
                     for k in bigs:
-                        slices.append(("D%d" % k, ["-DFIX_DMAX=%d" % k, "-DNMAX=%d" % (k + 1), "-DSHORT_OPS=2"],
-                                       {"dmax": k, "NMAX": k + 1, "operands": "src length <= 2, old dest length <= 1", "lib_unwind": 5}))
+                        if kind in ("K_CAT", "K_NCAT"):
+                            for dl in (0, 1):
+                                slices.append(("D%d.l%d" % (k, dl), ["-DFIX_DMAX=%d" % k, "-DNMAX=%d" % (k + 1), "-DSHORT_OPS=2",
+                                                                    "-DFIX_DL=%d" % dl],
+                                               {"dmax": k, "NMAX": k + 1, "operands": "src length <= 2, old dest = %d concrete chars" % dl,
+                                                "lib_unwind": 5}))
+                        else:
+                            slices.append(("D%d" % k, ["-DFIX_DMAX=%d" % k, "-DNMAX=%d" % (k + 1), "-DSHORT_OPS=2"],
+                                           {"dmax": k, "NMAX": k + 1, "operands": "src length <= 2", "lib_unwind": 5}))
                 slices = [(t + ".o%d" % o, e + ["-DFIX_ORDER=%d" % o], dict(b, order=o)) for (t, e, b) in slices for o in (0, 1)]
                 for tag, extra, b in slices:
                     NN = b.get("NMAX", N)
@@ -92,7 +99,8 @@ def jobs(prop, tier, only_fn=None):
                     out.append(Job("%s.%s.%s.F.%s" % (name, prop, variant, tag), prop, "h_copy.c", files, defines=defs,
                                    variant=variant,
                                    unwind_default=b.get("lib_unwind") or ((b["dmax"] if isinstance(b["dmax"], int) else N) + 2),
-                                   unwind_rules=[(r"^mem(set|cpy)\.", (NN if wide else NN * W) + 2)],
+                                   unwind_rules=[(r"^mem(set|cpy)\.", (NN if wide else NN * W) + 2),
+                                                 (r"^_(str|wcs)nlen_s_chk\.", NN + 2)],
                                    memchecks=False, fn=name, bounds=bounds,
                                    timeout=120 if tier == "quick" else 900))
     return out
